@@ -112,7 +112,7 @@ def in_scope_for(pid):
 
 def run_check(pid, tier, seed, which, oracle_mode, extra_assumptions=(), post=None, known_matcher=None):
     chk = runner.Check(pid, tier, seed)
-    if pid != "C01":
+    if True:
         # every property of this group is a statement about whole runs: it depends on the complete iteration body and its
         # drivers, so every function of the method layer is verified in every check (a clause that only another property
         # states is filtered by `in_scope_for`); `which` documents the functions the property is anchored in
